@@ -306,7 +306,7 @@ def p_c15(facts, rep, tier):
     rep.floor("acquisition sites", rep.extra["acquisition_sites"], 39)
     rep.floor("held->acquired pairs", npairs, 36)
     rep.floor("L2 mutator call sites", n2, 5)
-    rep.floor("L3 obligations", n3, 3)
+    rep.floor("L3 obligations", n3, 2)
     rep.floor("L5 obligations", n5, 7)
     rep.floor("L6 obligations", n6, 1)
     rep.floor("L7 obligations", n7, 3)
